@@ -3,7 +3,7 @@
     the OCaml types); nat, positive, N, Z stay the extracted inductives.
     No Extract Constant. *)
 From Coq Require Import ExtrOcamlBasic.
-From PP Require Import Doc Normalize Layout Render Config EntryPoints Consts Dispatch PyStr PyLit PyVal Printers Pformat PyExpr PyEval Graph Extras ExtrasModel Color Threads Stdlib Cost.
+From PP Require Import Doc Normalize Layout Render Config EntryPoints Consts Dispatch PyStr PyLit PyVal Printers Pformat PyExpr PyEval Graph Extras ExtrasModel Color Threads Stdlib StdColl Cost.
 
 Extraction "pp.ml"
   Z.add Z.mul Z.sub Z.opp Z.div_eucl Z.of_nat Z.to_nat Z.of_N N.of_nat Z.compare
@@ -11,4 +11,4 @@ Extraction "pp.ml"
   run_cfg entry_points set_default_plumbing
   drun dinit
   pformat_model sdocs_model str_to_lines escape_for_quote quote_strategy commentdoc literal_value
-  etoks expr_of eval norm gprint gspec gwarns dc_display attrs_display dc_call_form color_render written unstyled run step_new step_old sh0 t0 timedelta_kwargs datetime_out time_out best_layout_pops top_doc.
+  etoks expr_of eval norm gprint gspec gwarns dc_display attrs_display dc_call_form color_render written unstyled run step_new step_old sh0 t0 timedelta_kwargs datetime_out time_out best_layout_pops top_doc std_print std_rebuild.
